@@ -5,6 +5,7 @@ failed command changes nothing, and the conditional clauses under `safeStep2`.
 -/
 import OG.C16.Step2
 import OG.C16.Props4
+import OG.C16.ExpandInv
 
 namespace OG.C16
 open OG.Meta
@@ -307,12 +308,11 @@ theorem strong_updatePtVersion {d : Data} (h : StrongInv d) (db : String) (pt : 
     all_goals first | exact h.refs | exact refs_of_eq h.refs rfl (Nat.le_refl _)
 
 /-- the side condition on one step of the larger model: a first-layer command must be safe in
-the first-layer sense; ReSharding (it splits the last group inside its span, by construction) and
-ExpandGroups (the conditional clauses are not proved for it yet) are excluded. -/
+the first-layer sense; ReSharding (it splits the last group inside its span, by construction) is
+excluded.  ExpandGroups is safe (`strong_expandGroups`, ExpandInv.lean). -/
 def safeStep2 (d : Data2) : Cmd2 → Bool
   | .base c => safeStep d.base c
   | .reSharding .. => false
-  | .expandGroups => false
   | _ => true
 
 theorem wf_invariant2_partial (d : Data2) (c : Cmd2) (h : StrongInv d.base) (hs : safeStep2 d c = true) : StrongInv (apply2 d c).1.base := by
@@ -327,7 +327,7 @@ theorem wf_invariant2_partial (d : Data2) (c : Cmd2) (h : StrongInv d.base) (hs 
   | updateIndexInfoTier i t db rp => exact strong_updateIndexInfoTier h i t db rp
   | updatePtVersion db pt => exact strong_updatePtVersion h db pt
   | reSharding db rp id t n => simp [safeStep2] at hs
-  | expandGroups => simp [safeStep2] at hs
+  | expandGroups => exact strong_expandGroups h
   | markTakeover b => exact h
   | markBalancer b => exact h
   | createSubscription n db rp => simp only [apply2P]; rw [he.1]; exact h
@@ -376,7 +376,9 @@ example : (shardIds (applyAll2 Data2.init demoLog2).base, indexIds (applyAll2 Da
     (applyAll2 Data2.init demoLog2).ext.streams.map (·.id), (apply2 (applyAll2 Data2.init (demoLog2.take 12)) (demoLog2.getD 12 .expandGroups)).2) =
     ([1, 2], [1, 2], [0], .err eDropStreamFirst) := by decide +kernel
 
-example : safeLog2 Data2.init (demoLog2.take 6 ++ demoLog2.drop 7) = true := by decide +kernel
+/-- the whole log, ExpandGroups included, is safe; a ReSharding is not -/
+example : safeLog2 Data2.init demoLog2 = true := by decide +kernel
+example : safeStep2 Data2.init (.reSharding "db0" "autogen" 1 0 1) = false := by decide +kernel
 
 
 end OG.C16
